@@ -112,7 +112,7 @@ impl Engine for CollideSim {
             excess_blob_gas: Some(0),
         };
         CollideCase {
-            cfg: SysCfg { spec: spec_name(spec), stack, insp: InspKind::None, lazy_code: rng.chance(1, 3), empty_as_none: rng.bool(), analyse: rng.bool(), code_size_limit: None, chain_id: 1, reward: true },
+            cfg: SysCfg { spec: spec_name(spec), stack, insp: InspKind::None, lazy_code: rng.chance(1, 3), empty_as_none: rng.bool(), analyse: rng.bool(), code_size_limit: None, chain_id: 1, reward: true, fault_precompile: false },
             block,
             target_state,
             kind,
